@@ -56,7 +56,7 @@ UNPROVED = ["norm_p over R: non-negativity, homogeneity and norm_p = norm_1 / no
             "complex / rational vectors (package cnorm, coq/Proofs/VectorCx2.v, VectorCx2Q.v; pinned at the end of coq/Props/C15.v): for Vector<Complex<f64>>::norm_inf "
             "(vec_cmplx.rs) and the generic norm_1 (through Signed::abs = (|z|, 0)) the laws (maximum of the moduli, non-negativity, definiteness, homogeneity, triangle inequality, "
             "norm_inf <= norm_1 <= n norm_inf, exact panic condition) and Cauchy-Schwarz for the bilinear dot are proved over C = R x R and (norm_1) over Qc, and searched on "
-            "Complex<f64> (1e-12 slack, entries of moderate magnitude) and Rat (exactly); over IEEE binary64 (Flocq) both complex norms are exact on Gaussian integers of integer modulus "
+            "Complex<f64> (values within 1e-12, laws with 4e-12 slack, entries of moderate magnitude) and Rat (exactly); over IEEE binary64 (Flocq) both complex norms are exact on Gaussian integers of integer modulus "
             "(cnorm_inf_exact_float, cnorm1_exact_float), and in the standard model of floating-point arithmetic with a rounded square root fl|z| = |z|(1+th), |th| <= gam 3, "
             "fl(norm_inf) = max|z_i|(1+th), |th| <= gam 3, re fl(norm_1) = Sum|z_k|(1+th_k), |th_k| <= gam(n+3) (coq/Proofs/VectorCx2R.v); what stays unproved is the standard model "
             "itself for Complex<f64> (no Flocq bridge for the complex norms on general data), and the laws FAIL on the real code when re^2 + im^2 leaves the f64 range "
@@ -721,12 +721,14 @@ def cnormlaws_vectors(m):
     u, v, c = m["u"], m["v"], m["c"]
     return [u, v, [complex(a.real + b.real, a.imag + b.imag) for a, b in zip(u, v)], [cmul_ieee(a, c) for a in u]]
 
-def oracle_cnormlaws(m, items):
+def oracle_cnormlaws(case, items):
     """Complex<f64>.  (1) every returned value is the definition's value of the vector it was computed from (mpmath, 50
     digits): norm_1 = (sum |z_i|, 0) with imaginary part exactly 0, norm_inf = max |z_i|, dot = the bilinear sum;
     (2) the laws hold BETWEEN THE RETURNED VALUES: non-negativity, definiteness, homogeneity, triangle inequality,
-    norm_inf <= norm_1 <= n norm_inf, Cauchy-Schwarz |dot| <= sqrt(sum|u_i|^2) sqrt(sum|v_i|^2).  Slack 1e-12 (relative),
-    as for the real vectors; the generated entries have moderate magnitude (no overflow / underflow of |z|^2)."""
+    norm_inf <= norm_1 <= n norm_inf, Cauchy-Schwarz |dot| <= sqrt(sum|u_i|^2) sqrt(sum|v_i|^2).  Values within 1e-12
+    (relative), laws with slack 4e-12 (a law combines up to three values that (1) pins to 1e-12 each), as for the real
+    vectors; the generated entries have moderate magnitude (no overflow / underflow of |z|^2)."""
+    m = case.meta
     u, v, c = m["u"], m["v"], m["c"]
     if len(u) != len(v):
         return None if items and items[-1][0] == 'P' else "u + v with mismatched sizes did not panic (complex)"
@@ -741,36 +743,43 @@ def oracle_cnormlaws(m, items):
     N1 = [fl(items, 2 + 3 * w) for w in range(4)]; N1im = [fl(items, 3 + 3 * w) for w in range(4)]; NI = [fl(items, 4 + 3 * w) for w in range(4)]
     names = ["u", "v", "u+v", "u*c"]
     mod = lambda z: mp.sqrt(mp.mpf(z.real) ** 2 + mp.mpf(z.imag) ** 2)
+    # every failure of the case is collected (as for the real vectors): pick_failure reports the first that is not the
+    # recorded finding, so a downgraded [cnorm_1#w] on a range-extreme operand cannot hide a dot / norm / law failure
+    fails = []; bad = set()          # bad: (row, 0 = norm_1 | 1 = norm_inf) of the values that are not the definition's
     # (1) values
     for w, vec in enumerate(vecs):
         ms = [mod(z) for z in vec]
         s1 = mp.fsum(ms); mx = max(ms)
-        if N1im[w] != 0.0: return "[cnorm_1#%d] norm_1 of the complex vector %s = %r has imaginary part %r, not 0" % (w, names[w], vec, N1im[w])
-        if not close(N1[w], s1): return "[cnorm_1#%d] norm_1 of %s = %r is %r, sum of the moduli is %r" % (w, names[w], vec, N1[w], float(s1))
-        if not close(NI[w], mx): return "[cnorm_inf#%d] norm_inf of %s = %r is %r, largest modulus is %r" % (w, names[w], vec, NI[w], float(mx))
+        if N1im[w] != 0.0: bad.add((w, 0)); fails.append("[cnorm_1#%d] norm_1 of the complex vector %s = %r has imaginary part %r, not 0" % (w, names[w], vec, N1im[w]))
+        elif not close(N1[w], s1): bad.add((w, 0)); fails.append("[cnorm_1#%d] norm_1 of %s = %r is %r, sum of the moduli is %r" % (w, names[w], vec, N1[w], float(s1)))
+        if not close(NI[w], mx): bad.add((w, 1)); fails.append("[cnorm_inf#%d] norm_inf of %s = %r is %r, largest modulus is %r" % (w, names[w], vec, NI[w], float(mx)))
     dre = mp.fsum([mp.mpf(a.real) * mp.mpf(b.real) - mp.mpf(a.imag) * mp.mpf(b.imag) for a, b in zip(u, v)])
     dim = mp.fsum([mp.mpf(a.real) * mp.mpf(b.imag) + mp.mpf(a.imag) * mp.mpf(b.real) for a, b in zip(u, v)])
     dscale = float(mp.fsum([mod(a) * mod(b) for a, b in zip(u, v)]))
-    if not (close(dot.real, dre, dscale) and close(dot.imag, dim, dscale)):
-        return "[cdot] dot of %r and %r is %r, the bilinear sum is %r" % (u, v, dot, complex(float(dre), float(dim)))
-    # (2) laws between the returned values
-    sl = 1e-12
+    dot_ok = close(dot.real, dre, dscale) and close(dot.imag, dim, dscale)
+    if not dot_ok:
+        fails.append("[cdot] dot of %r and %r is %r, the bilinear sum is %r" % (u, v, dot, complex(float(dre), float(dim))))
+    # (2) laws between the returned values; a law instance is judged when every value it involves passed (1)
+    sl = 4e-12
     cabs = float(mod(c))
-    for nm, N in (("norm_1", N1), ("norm_inf", NI)):
+    for k, (nm, N) in enumerate((("norm_1", N1), ("norm_inf", NI))):
         nu, nv, ns, nc = N
-        if min(N) < 0 or any(x != x for x in N): return "[claw] complex %s is negative or NaN on %r / %r" % (nm, u, v)
-        if ns > (nu + nv) * (1 + sl) + 1e-300: return "[claw] triangle inequality fails for complex %s: |u+v| = %r > |u| + |v| = %r (u = %r, v = %r)" % (nm, ns, nu + nv, u, v)
-        if abs(nc - cabs * nu) > sl * max(nc, cabs * nu) + 1e-300: return "[claw] homogeneity fails for complex %s: |u c| = %r, |c| |u| = %r (c = %r, u = %r)" % (nm, nc, cabs * nu, c, u)
+        ok = lambda *ws: not any((w, k) in bad for w in ws)
+        for w in range(4):
+            if ok(w) and not (N[w] >= 0): fails.append("[claw] complex %s is negative or NaN on %r / %r" % (nm, u, v))
+        if ok(0, 1, 2) and not (ns <= (nu + nv) * (1 + sl) + 1e-300): fails.append("[claw] triangle inequality fails for complex %s: |u+v| = %r > |u| + |v| = %r (u = %r, v = %r)" % (nm, ns, nu + nv, u, v))
+        if ok(0, 3) and not (abs(nc - cabs * nu) <= sl * max(nc, cabs * nu) + 1e-300): fails.append("[claw] homogeneity fails for complex %s: |u c| = %r, |c| |u| = %r (c = %r, u = %r)" % (nm, nc, cabs * nu, c, u))
     for w, vec in enumerate(vecs):
+        if {(w, 0), (w, 1)} & bad: continue
         allzero = all(z == 0 for z in vec)
         if (N1[w] == 0.0) != allzero or (NI[w] == 0.0) != allzero:
-            return "[claw] definiteness fails on %s = %r: norm_1 = %r, norm_inf = %r" % (names[w], vec, N1[w], NI[w])
+            fails.append("[claw] definiteness fails on %s = %r: norm_1 = %r, norm_inf = %r" % (names[w], vec, N1[w], NI[w]))
         if not (NI[w] <= N1[w] * (1 + sl) and N1[w] <= len(vec) * NI[w] * (1 + sl)):
-            return "[claw] norm_inf <= norm_1 <= n norm_inf fails on %s = %r: %r, %r" % (names[w], vec, NI[w], N1[w])
+            fails.append("[claw] norm_inf <= norm_1 <= n norm_inf fails on %s = %r: %r, %r" % (names[w], vec, NI[w], N1[w]))
     s2u = mp.sqrt(mp.fsum([mod(z) ** 2 for z in u])); s2v = mp.sqrt(mp.fsum([mod(z) ** 2 for z in v]))
-    if abs(dot) > float(s2u * s2v) * (1 + sl) + 1e-300:
-        return "[claw] Cauchy-Schwarz fails: |dot(u,v)| = %r > %r (u = %r, v = %r)" % (abs(dot), float(s2u * s2v), u, v)
-    return None
+    if dot_ok and not (abs(dot) <= float(s2u * s2v) * (1 + sl) + 1e-300):
+        fails.append("[claw] Cauchy-Schwarz fails: |dot(u,v)| = %r > %r (u = %r, v = %r)" % (abs(dot), float(s2u * s2v), u, v))
+    return pick_failure(case, fails)
 
 def oracle_n1laws_rat(m, items):
     """Rat, exact: values against Fraction arithmetic, then the laws between the returned values"""
@@ -950,7 +959,7 @@ def oracle(case, items):
         sc = [None] + [0.0] * (2 * len(v)) + [None] + [0.0] * len(v) + [None] + [t for t in mods for _ in (0, 1)] + ([max(mods)] if v else [None])
         d = streams_match(exp, items, 1e-12, sc)
         return ("complex vector conj/real/abs/norm_inf: " + d) if d else None
-    if kind == "cnormlaws": return oracle_cnormlaws(m, items)
+    if kind == "cnormlaws": return oracle_cnormlaws(case, items)
     if kind == "n1laws" and elt == 'rat': return oracle_n1laws_rat(m, items)
     if kind == "ctor":
         n, x, w = m["n"], m["x"], m["w"]
